@@ -38,11 +38,21 @@ def os_norm(path):
             continue
         parts.append(c)
     return b'/' + b'/'.join(parts)
+DIR_SEEK_END = 0x7FFFFFFFFFFFFFFF     # what lseek(fd_of_a_directory, 0, SEEK_END) reports on Linux (ext4, tmpfs)
+def is_dir(path):
+    return path not in rt.VFS and any(k.startswith(path.rstrip(b'/') + b'/') for k in rt.VFS if isinstance(k, bytes))
 def fb_open(this, name, mode):
     path = os_norm(rt.cstr(name))
     mode &= 0xFFFFFFFF
     rt.VFS_OPENED.append((path, mode))
     if this in FB and FB[this]['open']: return 0
+    if is_dir(path):
+        if mode & 16: return 0                                   # EISDIR for any writing mode
+        # open(2) of a directory for reading succeeds; reads fail (EISDIR) and seeking to the end reports a huge offset
+        buf = rt.new_obj(1, 'heap', 'directory stream %r' % path)
+        st(this + 8, 8, buf); st(this + 16, 8, buf); st(this + 24, 8, buf)
+        FB[this] = dict(buf=buf, size=0, open=True, path=path, mode=mode, isdir=True)
+        return this
     if path not in rt.VFS:
         if mode & 16 and not (mode & 8 and not mode & 32):      # out (and not in-without-trunc): the file would be created
             rt.VFS_WRITES.append(('create', path)); rt.VFS[path] = b''
@@ -91,6 +101,11 @@ def fb_seekoff(this, off, way, mode):
     if off >> 63: off -= 1 << 64
     beg = ld(this + 8, 8); cur = ld(this + 16, 8); end = ld(this + 24, 8)
     way &= 0xFFFFFFFF
+    if s_.get('isdir'):
+        if way == 2: s_['dirpos'] = DIR_SEEK_END + off
+        elif way == 0: s_['dirpos'] = off
+        else: s_['dirpos'] = s_.get('dirpos', 0) + off
+        return [s_['dirpos'] & M64, 0]
     base = 0 if way == 0 else (cur - beg) if way == 1 else (end - beg)
     np = base + off
     if np < 0 or np > end - beg: return [M64, 0]
@@ -308,6 +323,12 @@ def fs_status(path):
     if any(k.startswith(s_.rstrip(b'/') + b'/') for k in rt.VFS): return 2 | (0o755 << 32)
     return 0xFFFFFFFF | (0xFFFF << 32)
 _reg(['_ZNSt10filesystem6statusERKNS_7__cxx114pathE'], fs_status, override=False)
+def fs_status_ec(path, ec):
+    r = fs_status(path)
+    # error_code {int value; const error_category* cat}: cleared, or ENOENT with the category it already carries
+    st(ec, 4, 2 if (r & 0xFFFFFFFF) == 0xFFFFFFFF else 0)
+    return r
+_reg(['_ZNSt10filesystem6statusERKNS_7__cxx114pathERSt10error_code'], fs_status_ec, override=False)
 
 def fb_ctor(this):
     """basic_filebuf(): streambuf base with this class's vtable, empty get/put areas; the codecvt/locale set-up of the real constructor is skipped"""
@@ -334,6 +355,10 @@ def bf_open(this, name, mode, prot=0):
     path = os_norm(rt.cstr(name)); mode &= 0xFFFFFFFF
     rt.VFS_OPENED.append((path, mode))
     if this in BF and BF[this]['open']: return 0
+    if is_dir(path):
+        if mode & 16: return 0
+        BF[this] = dict(path=path, mode=mode, open=True, isdir=True)
+        return this
     if path not in rt.VFS:
         if mode & 16 and not (mode & 8 and not mode & 32): rt.VFS_WRITES.append(('create', path)); rt.VFS[path] = b''
         else: return 0
@@ -358,6 +383,11 @@ def _attach(this):
     if s_ is not None and s_['open']: return s_
     b = _bf_of(this)
     if b is None: return None
+    if b.get('isdir'):
+        buf = rt.new_obj(1, 'heap', 'directory stream %r' % b['path'])
+        st(this + 8, 8, buf); st(this + 16, 8, buf); st(this + 24, 8, buf)
+        FB[this] = dict(buf=buf, size=0, open=True, path=b['path'], mode=b['mode'], isdir=True)
+        return FB[this]
     data = rt.VFS[b['path']]; n = len(data)
     buf = rt.new_obj(max(n, 1), 'heap', 'file content of %r (%d bytes)' % (b['path'], n))
     if isinstance(data, (bytes, bytearray)): rt.OBJ[buf >> 32].data[0:n] = data
